@@ -63,7 +63,12 @@ def real_lists(residues, model):
     idx = positions(residues, model)
     if idx is None:
         return ("ambiguous",)
-    st, val = call(find_pairs, G.structure(residues), model)
+    s3 = G.structure(residues)
+    if model is not None:
+        for other in dict.fromkeys(r.model for r in residues):
+            if other != model:
+                call(find_pairs, s3, other)      # same object, another model argument first (see c03.real_pairs)
+    st, val = call(find_pairs, s3, model)
     if st != "ok":
         return ("err", val)
 
